@@ -77,13 +77,29 @@ int _skinny_has_vec256(void)
     int detected = 0;
 #if SKINNY_VEC256_MATH
 #if SKINNY_X86_CPUID && defined(__AVX2__)
-    /* 256-bit SIMD vectors are available on x86 if we have AVX2 */
+    /* 256-bit SIMD vectors are available on x86 if we have AVX2.
+       Leaf 7 must exist and be queried with sub-leaf 0 in ECX, and the
+       OS must have enabled the AVX register state (OSXSAVE + XCR0) */
     uint32_t eax = 0;
     uint32_t ebx = 0;
     uint32_t ecx = 0;
     uint32_t edx = 0;
-    __cpuid(7, eax, ebx, ecx, edx);
-    detected = (ebx & (1 << 5)) != 0;
+    __cpuid(0, eax, ebx, ecx, edx);
+    if (eax >= 7) {
+        __cpuid(1, eax, ebx, ecx, edx);
+        if ((ecx & (1 << 27)) != 0 && (ecx & (1 << 28)) != 0) {
+            uint32_t xcr0_low = 0;
+            uint32_t xcr0_high = 0;
+            __asm__ __volatile__ (
+                ".byte 0x0f, 0x01, 0xd0" /* xgetbv */
+                : "=a"(xcr0_low), "=d"(xcr0_high) : "c"(0)
+            );
+            if ((xcr0_low & 0x06) == 0x06) {
+                __cpuid_count(7, 0, eax, ebx, ecx, edx);
+                detected = (ebx & (1 << 5)) != 0;
+            }
+        }
+    }
 #endif
 #endif
 #if defined(RWEATHER_SKINNY_C_VERIF)
